@@ -69,6 +69,7 @@ int vf_close(int fd);
 #define fputs(s, f) ((void) 0)
 #define fputc(c, f) ((void) 0)
 #define strerror(e) ("")
+#define getenv(n) ((char *) 0)	/* ASSUME: TEST_IO_FLAGS / TEST_IO_BLOCK / E2FSPROGS_UNDO_DIR are not in the environment (no test_io wrapper) */
 #define fflush(f) ((void) 0)
 #undef isspace
 #define isspace(c) ((c) == ' ' || (c) == '\t' || (c) == '\n')
@@ -89,6 +90,7 @@ static errcode_t e2fsck_check_mmp(ext2_filsys fs, e2fsck_t ctx);
 #undef fputs
 #undef fputc
 #undef strerror
+#undef getenv
 #undef fflush
 #undef sysconf
 
@@ -216,7 +218,8 @@ errcode_t ext2fs_open2(const char *name, const char *io_options, int flags, int 
 	/* C12: which io manager gets the device.  try_open_fs() probes the block size of a -b superblock with throw-away opens on
 	 * the plain unix manager (handle freed at once); since every open succeeds here, such a probe is always followed by the
 	 * real open: they alternate while ctx->superblock is set and ctx->blocksize is not */
-	is_probe = superblock && !vf_ctx.blocksize && !vf_after_probe;
+	is_probe = vf_ctx.superblock && !vf_ctx.blocksize && !vf_after_probe;	/* ctx->superblock (64 bit), not the int argument it is truncated to */
+	(void) superblock;
 	vf_after_probe = is_probe;
 	if (is_probe)
 		PROP(manager == unix_io_manager, "block-size probe of try_open_fs uses the plain unix manager");
